@@ -19,5 +19,6 @@ long long t1(_Bool b1, _Bool b2, char c1, char c2, signed char sc1, unsigned cha
   ll1 = sizeof(st1) + 9 ? 2 : 3;
   ll1 = EM < 1u;
   ll1 = 0x100000001u + 0;
+  ll1 = ~0xFFFFFFFFFFFFFFFF <= 0;
   return 0;
 }
